@@ -13,7 +13,7 @@ import gens
 import coqcross
 
 REC_FIELDS = ["seq", "nid", "sig", "pairs", "pk", "pku", "nidpk", "verify", "size", "enc", "text", "disp", "json", "id", "ip4", "ip6",
-              "tcp4", "tcp6", "udp4", "udp6", "s_udp4", "s_udp6", "s_tcp4", "s_tcp6", "r_udp", "r_tcp", "client", "acc", "glue", "alt"]
+              "tcp4", "tcp6", "udp4", "udp6", "s_udp4", "s_udp6", "s_tcp4", "s_tcp6", "r_udp", "r_tcp", "client", "acc", "glue", "redec", "alt"]
 REC_CMP = [k for k in REC_FIELDS if k != "alt"]   # alt exists only on json lines
 
 
@@ -123,6 +123,7 @@ def pairs_of(f):
 def oracle_verifies(ctx, kt, f):
     """asks the crypto libraries directly whether the reported signature is valid for the public key in the
     reported pairs over the content list rebuilt from the reported seq and pairs"""
+    kt = base_kt(kt)
     pairs = pairs_of(f)
     msg = payload_from_obs(f)
     sig = unhx(f["sig"])
@@ -185,6 +186,8 @@ def valid_obs_problems(ctx, kt, f):
         out.append("size %s > 300" % f["size"])
     if "enc" in f and "size" in f and int(f["size"]) != len(unhx(f["enc"])):
         out.append("size() != encoding length")
+    if f.get("redec", "1") != "1":
+        out.append("the record's own encoding is not accepted back by the decoder as the same record")
     ov = oracle_verifies(ctx, kt, f)
     ctx.hyp_checked["signature checked by the library directly"] += 1
     if ov is not True:
@@ -288,8 +291,8 @@ def check_C01(ctx):
 
 
 def check_C02(ctx):
-    for kt in ["k256", "libsecp", "ed", "comb", "toy"]:
-        recs, inputs, labels = decode_inputs(ctx, kt, ctx.scale(10, 120), 0, ctx.scale(10, 120), ctx.scale(40, 1000), 0)
+    for kt in ["k256", "libsecp", "ed", "comb", "toy", "k256_default"]:
+        recs, inputs, labels = decode_inputs(ctx, base_kt(kt), ctx.scale(10, 120), 0, ctx.scale(10, 120), ctx.scale(40, 1000), 0)
         # "a valid signature" is part of well-formedness: the shapes a signature field must not have
         for i, r in enumerate(recs[:ctx.scale(3, 30)]):
             for lab, b in gens.tampers(ctx.rng, ctx.oracle, r, recs[i + 1:] + recs[:i], 0):
@@ -528,7 +531,7 @@ def mon_C10(ctx):
                 # uncompressed form derived independently from the raw entry in the pairs
                 pairs = pairs_of(f)
                 v = pairs.get(b"secp256k1")
-                if v is not None and kt in ("k256", "libsecp", "comb") and len(v) == 35:
+                if v is not None and base_kt(kt) in ("k256", "libsecp", "comb") and len(v) == 35:
                     r = ctx.oracle.q("secp_pk %s %s" % ("l" if kt != "libsecp" else "k", hx(v[2:]))).split()
                     if r[0] == "ok" and r[2] != f["pku"]:
                         out.append((i, "encode_uncompressed() differs from an independent derivation from the stored key"))
@@ -582,7 +585,7 @@ def mon_C14(ctx):
 
 
 HIST_PROJ = {
-    "C05": ["verify", "id", "nid", "pk", "size", "seq", "pairs", "sig"],
+    "C05": ["verify", "id", "nid", "pk", "size", "seq", "pairs", "sig", "redec"],
     "C06": ["kind"] + REC_FIELDS,
     "C07": ["seq", "kind"],
     "C08": ["pairs", "ret", "kind", "sgn"],
@@ -833,32 +836,33 @@ def check_history_property(ctx):
             return ["pk", "pku", "nid", "ek"]
         return proj
 
-    kts = ["k256", "libsecp", "ed", "comb", "toy"]
+    kts = ["k256", "libsecp", "ed", "comb", "toy", "k256_default"]
     for kt in kts:
-        cases = hist_cases(ctx, kt, ctx.scale(24, 400), (4, 25))
+        gk = base_kt(kt)   # what the generators are told; kt selects the build of the harness and the model instance
+        cases = hist_cases(ctx, gk, ctx.scale(24, 400), (4, 25))
         if pid in ("C07",):
-            cases += hist_cases(ctx, kt, ctx.scale(12, 200), 6, start_fn=lambda rng: "build a 0 %d" % rng.choice(gens.SEQ_POOL))
+            cases += hist_cases(ctx, gk, ctx.scale(12, 200), 6, start_fn=lambda rng: "build a 0 %d" % rng.choice(gens.SEQ_POOL))
         if pid in ("C09", "C05", "C06", "C10"):
-            cases += size_sweep_cases(ctx, kt)
-            cases += size_neutral_cases(ctx, kt)
-            cases += cross_scheme_cases(ctx, kt)
+            cases += size_sweep_cases(ctx, gk)
+            cases += size_neutral_cases(ctx, gk)
+            cases += cross_scheme_cases(ctx, gk)
         if pid in ("C05", "C08", "C14", "C09"):
-            cases += builder_reuse_cases(ctx, kt)
+            cases += builder_reuse_cases(ctx, gk)
         if pid in ("C05", "C09"):
-            recs_d, inputs_d, labels_d = decode_inputs(ctx, kt, ctx.scale(4, 40), 0, ctx.scale(3, 30), ctx.scale(5, 100), 0)
+            recs_d, inputs_d, labels_d = decode_inputs(ctx, gk, ctx.scale(4, 40), 0, ctx.scale(3, 30), ctx.scale(5, 100), 0)
             cases += [["decode " + hx(b)] for b in inputs_d]
         if pid == "C10":
-            for r in gens.valid_records(ctx.rng, ctx.oracle, kt, ctx.scale(6, 60)):
+            for r in gens.valid_records(ctx.rng, ctx.oracle, gk, ctx.scale(6, 60)):
                 cases.append(["decode " + hx(r["bytes"])])
-            if kt in ("ed", "comb"):
+            if gk in ("ed", "comb"):
                 for b in gens.weak_ed_records(ctx.rng):
                     cases.append(["decode " + hx(b)])
         if pid == "C14":
             ports = sorted(set(gens.PORT_POOL + [ctx.rng.randrange(65536) for _ in range(ctx.scale(120, 0))])) if ctx.quick else list(range(65536))
-            if kt in ("k256", "ed") or ctx.quick:
-                cases += port_cases(ctx, kt, ports)
+            if gk in ("k256", "ed") or ctx.quick:
+                cases += port_cases(ctx, gk, ports)
             else:
-                cases += port_cases(ctx, kt, ports[::16])
+                cases += port_cases(ctx, gk, ports[::16])
         if pid == "C06":
             # a signing fault injected at every signing call of sampled histories
             extra = []
@@ -1202,8 +1206,8 @@ def check_C03(ctx):
         return out
 
     rng = ctx.rng
-    for kt in ["k256", "libsecp", "ed", "comb", "toy", "k256_plain", "comb_plain"]:
-        gkt = kt.replace("_plain", "")
+    for kt in ["k256", "libsecp", "ed", "comb", "toy", "k256_plain", "comb_plain", "k256_default"]:
+        gkt = base_kt(kt)
         cases = []
         for b in gens.unstructured(rng, ctx.scale(120, 5000)):
             c = rng.random()
